@@ -131,15 +131,28 @@ fn check(c: &Case, obs: &mut Obs) -> Result<(), Fail> {
                 }
             }
             Edit::SignShortestFormId => {
-                if let Ok(bn) = cx::read(&f.body) {
-                    let other = b256(&cx::write(&bn.minimal()));
+                // two other ids the body could be given: written with shortest-form heads, and as the library itself would
+                // write the decoded body again (tags on sets, definite lengths, ...)
+                let reencoded: Option<Vec<u8>> = match era {
+                    EraK::Babbage => pallas_codec::minicbor::decode::<pallas_primitives::babbage::Tx>(&f.tx).ok().and_then(|t| pallas_codec::minicbor::to_vec(&*t.transaction_body).ok()),
+                    EraK::Conway => pallas_codec::minicbor::decode::<pallas_primitives::conway::Tx>(&f.tx).ok().and_then(|t| pallas_codec::minicbor::to_vec(&*t.transaction_body).ok()),
+                    _ => pallas_codec::minicbor::decode::<pallas_primitives::alonzo::Tx>(&f.tx).ok().and_then(|t| pallas_codec::minicbor::to_vec(&*t.transaction_body).ok()),
+                };
+                let pick_reencoded = wl.len() % 2 == 0;
+                let alt = match (pick_reencoded, reencoded, cx::read(&f.body)) {
+                    (true, Some(r), _) => Some(r),
+                    (_, _, Ok(bn)) => Some(cx::write(&bn.minimal())),
+                    (_, r, _) => r,
+                };
+                if let Some(alt) = alt {
+                    let other = b256(&alt);
                     if other != id {
                         for (pk, sg) in wl.iter_mut() {
                             if let Some(kk) = (0u8..64).map(key).find(|k| k.pk.as_slice() == pk.as_slice()) {
                                 *sg = kk.sk.sign(&other).to_bytes().to_vec();
                             }
                         }
-                        edited.push("sign-shortest-form-id");
+                        edited.push(if pick_reencoded { "sign-reencoded-id" } else { "sign-shortest-form-id" });
                     }
                 }
             }
